@@ -1,7 +1,7 @@
 (* C13  Graph bookkeeping (valences, edge total, genus) consistent over any history. *)
 From Coq Require Import ZArith List Bool Lia Arith.
 Import ListNotations.
-From CF Require Import ZSum ListAux Defs Core Machines MachinesLink.
+From CF Require Import ZSum ListAux Defs Core Machines MachinesLink PyLib Translated TranslatedLink.
 Open Scope Z_scope.
 
 (* every state reachable from the empty graph on n vertices by ANY sequence of add_edge / add_edges calls - valid or refused, either
@@ -49,3 +49,9 @@ Print Assumptions C13_remove_vertex.
 Example C13_nonvacuous : let s := fold_left gapply [GAdd 0 1 2; GAdd 1 0 1; GAdd 2 2 1; GAddMany [(1%nat,2%nat,1);(0%nat,5%nat,1);(0%nat,2%nat,1)]] (ginit 3) in
   adj s = [[0;3;0];[3;0;1];[0;1;0]] /\ valc s = [3;4;1] /\ tot s = 4 /\ g_genus s = 2.
 Proof. vm_compute. repeat split. Qed.
+
+(* tie to the source text: CFGraph.get_genus as translated from /repo's current CFGraph.py (Translated.v) is total - |V| + 1 on the bookkeeping
+   state, which under the invariant is the genus |E| - |V| + 1 of the multigraph *)
+Theorem C13_source_get_genus : forall s (vs : list Z), length vs = gn s -> Translated.CFGraph_get_genus (tot s) vs = g_genus s.
+Proof. exact get_genus_eq. Qed.
+Print Assumptions C13_source_get_genus.
